@@ -23,7 +23,9 @@ class _Worker:
     def _trace(self, frame, event, arg):
         if frame.f_code.co_filename not in self.ctl.files:
             return None
-        if event == "line":
+        if self.ctl.opcodes:
+            frame.f_trace_opcodes = True
+        if event == ("opcode" if self.ctl.opcodes else "line"):
             self.steps += 1
             self.at_yield.set()
             self.go.acquire()
@@ -43,9 +45,10 @@ class _Worker:
 
 
 class Controller:
-    def __init__(self, files, fns, block_s=0.05):
+    def __init__(self, files, fns, block_s=0.05, opcodes=False):
         self.files = set(files)
         self.block_s = block_s
+        self.opcodes = opcodes          # yield at every bytecode instruction instead of every source line (needed to split a comprehension or a single statement)
         self.workers = [_Worker(self, i, f) for i, f in enumerate(fns)]
         for w in self.workers:
             w.thread.start()
@@ -92,12 +95,38 @@ class Controller:
                 continue
             r = self.step(i)
             states[i] = {"yield": "ready", "done": "done", "blocked": "blocked"}[r]
-        for w in self.workers:          # let everything finish
-            for _ in range(max_steps):
+        # let everything finish (round robin; a worker blocked on the other's lock gets its turn again once the other has moved on)
+        pending = {i: "ready" for i, w in enumerate(self.workers) if not w.done.is_set()}
+        for i in list(pending):
+            if states[i] == "blocked":
+                pending[i] = "blocked"
+        for _ in range(20 * max_steps):
+            if not pending:
+                break
+            progressed = False
+            for i in list(pending):
+                w = self.workers[i]
                 if w.done.is_set():
-                    break
-                w.go.release()
-                w.done.wait(0.01)
+                    del pending[i]
+                    progressed = True
+                    continue
+                if pending[i] == "blocked":
+                    if not w.at_yield.wait(0.0005):
+                        continue
+                    if w.done.is_set():
+                        del pending[i]
+                        progressed = True
+                        continue
+                    pending[i] = "ready"
+                r = self.step(i)
+                progressed = True
+                if r == "done":
+                    del pending[i]
+                elif r == "blocked":
+                    pending[i] = "blocked"
+            if not progressed and all(v == "blocked" for v in pending.values()):
+                if not any(self.workers[i].at_yield.wait(0.5) for i in pending):
+                    break       # deadlock
         return trace
 
 
@@ -126,12 +155,20 @@ def policies(max_k):
     return out
 
 
-def explore(files, make_fns, oracle, max_k=25, block_s=0.05):
+def explore(files, make_fns, oracle, max_k=25, block_s=0.05, opcodes=False, alternation=True):
     """for every policy: fresh scenario = make_fns() -> (list of callables, context); after the run oracle(context, workers) -> None | failure dict"""
     runs = 0
-    for name, pol in policies(max_k):
+    if opcodes:
+        # CPython instruments a code object for per-instruction events only from its second execution on: run the scenario once, unobserved
         fns, ctx = make_fns()
-        c = Controller(files, fns, block_s)
+        c = Controller(files, fns, block_s, opcodes)
+        c.run_policy(policies(1)[0][1])
+        oracle(ctx, c.workers)
+    for name, pol in policies(max_k):
+        if not alternation and name == "strict alternation":
+            continue
+        fns, ctx = make_fns()
+        c = Controller(files, fns, block_s, opcodes)
         c.run_policy(pol)
         runs += 1
         bad = oracle(ctx, c.workers)
